@@ -41,7 +41,7 @@ impl Prop for C16 {
     }
     fn build(&self, ch: &mut Chooser, cx: &mut CaseCtx) -> C16Case {
         let thorough = cx.env.tier == Tier::Thorough;
-        let o = WsGenOpts { fail_chance: 0, max_patches: if thorough { 10 } else { 6 }, max_files: 5, alt_name_chance: 4, strict_reject_dirs: true, ..Default::default() };
+        let o = WsGenOpts { fail_chance: 0, max_patches: if thorough { 10 } else { 6 }, max_files: 5, alt_name_chance: 4, ..Default::default() };
         let ws = gen_ws(ch, cx, &o);
         let n = ws.metas.len();
         C16Case { ws, threads: *ch.pick(&[2usize, 2, 3, 4, 8, 16]), cut: ch.range(0, n), backup_count: ch.pick(&["all", "all", "1", "2"]).to_string() }
